@@ -213,13 +213,16 @@ def tlc_trace(ctx, cfg, module, trace_file, timeout=1800):
     return False, (last if last is not None else unmatched)
 
 
-def trace_core(ctx, prop, runs):
+def trace_core(ctx, prop, runs, reject=0):
     """impl -> spec: record random runs from the real crate, let TLC validate them against TraceCore
     (several single-worker TLC processes in parallel, one per trace chunk)."""
     from concurrent.futures import ThreadPoolExecutor
     chunks = 1 if runs <= 12 else min(12, runs // 12)
     tf = os.path.join(ctx.scratch, f"trace-{prop}.ndjson")
-    s = hv(ctx, "record", trace=tf, runs=runs, chunks=chunks, large_every=(10 if ctx.quick else 15), fan_every=5)
+    if reject:
+        s = hv(ctx, "record", trace=tf, runs=runs, chunks=chunks, reject=1)
+    else:
+        s = hv(ctx, "record", trace=tf, runs=runs, chunks=chunks, large_every=(10 if ctx.quick else 15), fan_every=5)
     files = [tf] if chunks == 1 else [f"{tf}.{c}" for c in range(chunks)]
     idx = s["extra"]["runs"]
 
@@ -241,7 +244,7 @@ def trace_core(ctx, prop, runs):
             ev["proj"] = "<projection omitted>"
         os.makedirs(REPLAYS, exist_ok=True)
         rp = os.path.join(REPLAYS, f"{prop}-trace-seed{ctx.seed}-run{run['run']}.json")
-        json.dump({"cmd": "trace-core", "property": prop, "seed": ctx.seed, "run": run["run"], "large_every": (10 if ctx.quick else 15), "fan_every": 5, "line": line_no, "event": ev,
+        json.dump({"cmd": "trace-core", "property": prop, "seed": ctx.seed, "run": run["run"], "large_every": (10 if ctx.quick else 15), "fan_every": 5, "reject": reject, "line": line_no, "event": ev,
                    "diffs": [f"recorded event at trace line {line_no} is not a step of the specification (TraceCore, focus {prop})"]}, open(rp, "w"), indent=1)
         ctx.violations.append(dict(property=prop, what=f"trace validation: event {ev.get('e')} of run {run['run']} rejected by the specification", replay=rp))
 
@@ -728,7 +731,24 @@ def check_C18(ctx):
     return finish(ctx)
 
 
-CHECKS = {"C17": check_C17, "C18": check_C18, "C11": check_C11, "C13": check_C13, "C12": check_C12, "C19": check_C19, "C20": check_C20, "C10": check_C10, "C09": check_C09, "C07": check_C07, "C08": check_C08, "C01": check_C01, "C02": check_C02, "C03": check_C03, "C04": check_C04, "C05": check_C05, "C06": check_C06}
+def check_C15(ctx):
+    ctx.rule = ("spec/HpoReject.tla extends the Builder machine with the calls that must be rejected: add_parent with an absent parent or child and annotate_* with an absent term are "
+                "stuttering steps of the builder state; TLC explores every complete lifecycle (every arrangement of every subset of 3 ids as terms, <=2 add_parent calls (3 thorough) and <=2 record-level "
+                "calls (3 thorough) over present AND absent ids, rejected and successful calls interleaved) with invariants TypeOK, NoDangling, InverseRel, Resolvable, ClosureExact, LinkExact and the "
+                "action properties RejectedStutters and ReplyRight, and emits each history with the reply of every call and the required projection.  The harness issues the same calls under "
+                "3 id layouts, compares every reply, walks the complete read API (resolving iterators, id lists, to_hpo_set, as_bytes) under catch_unwind, compares the projection, and compares with "
+                "the ontology built from the successful calls alone.  impl->spec: random runs with rejected calls are recorded from the crate and validated against TraceCore (focus C15: rejected "
+                "events must be stuttering steps with a really absent term, the built projection must equal the specification's); non-trivial = the history contains a rejected call")
+    out = tlc(ctx, "mc/MC_Reject.cfg" if ctx.quick else "mc/MC_RejectThorough.cfg", "mc/MC_Reject.tla", workers=14, timeout=3000)["out"]
+    s = hv(ctx, "replay-reject", prop="C15", **{"in": out})
+    ctx.traces += s.get("cases", 0)
+    ctx.extra["rejected_calls_replayed"] = s.get("counters", {}).get("rejected_calls", 0)
+    trace_core(ctx, "C15", 96 if ctx.quick else 480, reject=1)
+    ctx.assumptions += ["add_parent calls that would create a self loop or a cycle are outside the generator (as for C01: the crate does not check acyclicity)"]
+    return finish(ctx)
+
+
+CHECKS = {"C15": check_C15, "C17": check_C17, "C18": check_C18, "C11": check_C11, "C13": check_C13, "C12": check_C12, "C19": check_C19, "C20": check_C20, "C10": check_C10, "C09": check_C09, "C07": check_C07, "C08": check_C08, "C01": check_C01, "C02": check_C02, "C03": check_C03, "C04": check_C04, "C05": check_C05, "C06": check_C06}
 
 
 def run_check(prop, tier, seed):
@@ -785,7 +805,7 @@ def replay_trace(path, v):
     try:
         if v["cmd"] == "trace-core":
             tf = os.path.join(ctx.scratch, "replay.ndjson")
-            hv(ctx, "record", trace=tf, runs=int(v["run"]) + 1, only_run=v["run"], large_every=v.get("large_every", 10), fan_every=v.get("fan_every", 5))
+            hv(ctx, "record", trace=tf, runs=int(v["run"]) + 1, only_run=v["run"], large_every=v.get("large_every", 10), fan_every=v.get("fan_every", 5), reject=v.get("reject", 0))
             ok, line_no = tlc_trace(ctx, f"trace/TraceCore{prop}.cfg", "trace/TraceCore.tla", tf)
         else:
             src = os.path.join(ctx.scratch, "line.txt")
